@@ -175,6 +175,34 @@ def _specs_wc(tier):
                                   for c in spec['cells'] if 'f' in c and 'arr' not in c and 'col' in repr(c['f'])][:2]})
 
 
+def _multi_array_specs():
+    """Fixed shapes (added after seed c15-a): several array formulas on one sheet whose spill cells - not their anchors -
+    are crossed by one dependency rectangle of the requested output."""
+    out = []
+    for n_arr in (2, 3):
+        for gap in (1, 2):
+            for cross in ('col', 'both'):
+                cells = []
+                for r in range(1, 13):
+                    cells.append({'at': [0, 0, r, 1], 'v': float(r)})
+                    cells.append({'at': [0, 0, r, 2], 'v': float(10 * r)})
+                top = 1
+                for i in range(n_arr):
+                    # array formula over C..D, 3 rows, anchored at C<top>: =A<top>:B<top+2>*k
+                    cells.append({'at': [0, 0, top, 3], 'f': ['bin', '*', ['rng', [0, 0, top, 1, top + 2, 2]], ['num', float(i + 2)]], 'arr': [top + 2, 4]})
+                    top += 3 + gap
+                last = top - gap - 1
+                # F1 sums column D only (the spill column: no anchor inside), F2 a block starting one row below the first anchor
+                cells.append({'at': [0, 0, 1, 6], 'f': ['fn', 'SUM', ['rng', [0, 0, 1, 4, last, 4]]]})
+                if cross == 'both':
+                    cells.append({'at': [0, 0, 2, 6], 'f': ['fn', 'SUM', ['rng', [0, 0, 2, 3, last, 4]]]})
+                cells.append({'at': [0, 0, 3, 6], 'f': ['bin', '+', ['ref', [0, 0, 1, 6]], ['num', 1.0]]})
+                spec = {'books': [{'name': 'b0.xlsx', 'sheets': ['S1']}], 'cells': cells, 'names': []}
+                outs = [[[0, 0, 1, 6, 1, 6]], [[0, 0, 3, 6, 3, 6]]] + ([[[0, 0, 2, 6, 2, 6]]] if cross == 'both' else [])
+                out.append({'k': 'spec', 'spec': spec, 'singletons': False, 'outsets': outs})
+    return out
+
+
 STRATEGIES = {'specs': _specs, 'wholecol': _specs_wc}
 
 
@@ -183,4 +211,5 @@ def parts(tier, seed):
     return [
         ('hyp', 'specs', 192 if q else 4000, 6),
         ('hyp', 'wholecol', 4 if q else 160, 1),
+        ('enum', 'multi-array', _multi_array_specs(), 1, False),
     ]
